@@ -8,12 +8,12 @@ props = [json.loads(l) for l in open(os.path.join(V, 'properties.jsonl'))]
 
 # property -> (technique, level text, level note, design ref) ; absent => not yet claimed
 CLAIMS = {
-    'C08': ('Lean 4 theorems: trapezoid rule (linear, non-negative), decay amplitudes = trapezoid of Re(conj(B) S B)/2pi for the three spectrum shapes and the memory-parsimonious loop, slices, trace-tensor completeness identities, infidelity = -tr K/d^2 on both branches of infidelity(), pulse-correlation infidelities sum to the total, total infidelity >= 0 for PSD spectra; regenerated contractions and pins; correspondence; option-matrix search',
+    'C08': ('Lean 4 theorems: trapezoid rule (linear, non-negative), decay amplitudes = trapezoid of Re(conj(B) S B)/2pi for the three spectrum shapes and the memory-parsimonious loop, slices, trace-tensor completeness identities, infidelity = -tr K/d^2 on both branches of infidelity(), pulse-correlation infidelities sum to the total, total infidelity >= 0 for PSD spectra, the infidelity is a (Lipschitz) function of the selected control-matrix rows and the two branches agree on bases containing the identity (C08Inv); regenerated contractions and pins; correspondence; option-matrix search',
             'Machine-checked proof on executable models of util.integrate, _get_integrand, calculate_decay_amplitudes and infidelity (both branches, as the code is now) that the reported infidelity equals -tr K/d^2 of the cumulant function for every complete orthonormal Hermitian basis, that identifier subsets are slices, that pulse-correlation infidelities sum to the total and that the total is non-negative for PSD spectra; tie: regenerated integrand contractions, pins of the infidelity / decay-amplitude statements, correspondence of integrate and the trace tensor; search enumerates spectrum shapes, grids, options, cache histories and compares with independent numpy evaluations.',
             'The filter-function input path of _get_integrand, return_smallness and test_convergence are not modelled; option plumbing is validated by search.',
             'DESIGN.md §3 C08'),
-    'C09': ('Lean 4 theorems: trace tensor entries, the eight generated contractions equal the documented commutator formula (first and second order), the single-qubit shortcut equals the general formula on the Pauli basis (symbolically) and not on other d=2 bases, second-order part antisymmetric, row/column of the identity element vanish, reality; pins; correspondence; search incl. label independence, expm, TP/unital/CP',
-            'Machine-checked proof that both evaluation paths of calculate_cumulant_function implement K = -1/2 sum Gamma tr(C_i[C_k,[C_l,C_j]]) - 1/2 sum Delta tr(C_i[[C_k,C_l],C_j]) (general path for every basis; shortcut exactly for the Pauli basis, which is now what the code selects), with the structural consequences (antisymmetric second order, vanishing identity row/column = trace preservation and unitality of exp K); model executed against the package for both branches; search compares K with explicit commutator evaluation for every pair, checks label independence, ETM = expm(sum K), CP/cCP by Choi eigenvalues.',
+    'C09': ('Lean 4 theorems: trace tensor entries, the eight generated contractions equal the documented commutator formula (first and second order), the single-qubit shortcut equals the general formula on the Pauli basis (symbolically) and not on other d=2 bases, second-order part antisymmetric, row/column of the identity element vanish, reality, exp(K) and exp(sum K) have the identity row and column of the unit matrix (trace preserving, unital; C09Exp); pins; correspondence; search incl. label independence, expm, TP/unital/CP',
+            'Machine-checked proof that both evaluation paths of calculate_cumulant_function implement K = -1/2 sum Gamma tr(C_i[C_k,[C_l,C_j]]) - 1/2 sum Delta tr(C_i[[C_k,C_l],C_j]) (general path for every basis; shortcut exactly for the Pauli basis, which is now what the code selects), with the structural consequences (antisymmetric second order, vanishing identity row/column, and from it, with NormedSpace.exp, trace preservation and unitality of exp K and of the error transfer matrix of several noise sources); model executed against the package for both branches; search compares K with explicit commutator evaluation for every pair, checks label independence, ETM = expm(sum K), CP/cCP by Choi eigenvalues.',
             'Complete positivity of exp K is validated (Choi eigenvalues), not proved; expm is an oracle; the sparse COO path of the trace tensor is validated by search.',
             'DESIGN.md §3 C09'),
     'C18': ('Lean 4 theorems (core Lean): frame lemma over all histories for the declared write sets of 72 API calls, and exception safety of the cache machine: every raise point of every operation is a coherent state from which all later results are fresh (also for histories with failures and for several objects); declared write sets compared with fingerprint measurements of the whole API; fault injection compares real abort states with the Lean trace',
@@ -54,11 +54,11 @@ CLAIMS = {
             'DESIGN.md §3 C10'),
     'C12': ('Lean 4 theorems on the control-matrix model: invariance under per-segment energy offsets (with arbitrary unit phases on the propagators), covariance under change of basis B\' = B O^T and invariance of the fidelity filter function for isometric O, invariance under conjugation of all operators by one unitary; search on the implementation',
             'Machine-checked proof, for all dimensions / segments / frequencies and both branches of the small-denominator guard, that the modelled control matrix is unchanged by energy offsets and frame changes and transforms linearly under a change of basis so that the fidelity filter function is basis independent; search compares pairs of bases (GGM, Pauli, rotated, completed-from-partial, non-traceless), offsets up to 1e6 and random frames on filter functions, infidelities, error transfer matrices and process fidelity.',
-            'Independence of the infidelity / error transfer matrix of the basis rests on C08/C09 theorems plus search; expm is an oracle.',
+            'Infidelity-level invariance (energy offsets, frames, any two complete orthonormal Hermitian bases on either branch of infidelity()) is proved in module C08Inv; the error-transfer-matrix level rests on C09 theorems plus search; expm is an oracle.',
             'DESIGN.md §3 C12'),
     'C13': ('Lean 4 theorems on the control-matrix model: splitting identity of the segment integral and of whole segments (exact in the closed-form branch, explicit 2e-7*duration bound otherwise), zero-duration segments contribute nothing, operator permutation = row permutation, time-unit covariance for the dimensionless guard read from source (and its failure for an absolute guard), linearity; search on the implementation',
             'Machine-checked proof for all pulses that re-segmentation, zero-length segments and operator order leave the modelled control matrix unchanged (up to the proved truncation bound), that rescaling the time unit by any lambda != 0 multiplies it by lambda and the filter function by lambda^2 for the guard shape the translator reads from numeric.py on every run, and that it is linear in noise operators and sensitivities; metamorphic search on the real package with lambda = 1e-9..1e9.',
-            'Floating point not modelled; infidelity-level statements rest on C08.',
+            'Floating point not modelled; the infidelity-level statements (split with error bound, zero-length segments, operator permutation, time unit with S\'(w/lambda) = lambda S(w)) are theorems of module C08Inv.',
             'DESIGN.md §3 C13'),
     'C16': ('Lean 4 theorems (core Lean, index arithmetic): admissible position range, insert / merge / transpose produce exactly the numpy.insert / permutation order for all chains and positions, dims bookkeeping harmless, mixed-radix bijection, Pauli index maps for all n; exhaustive correspondence and product comparison on the implementation',
             'Machine-checked proof for all chain lengths, ranks, positions and permutations that the modelled tensor_insert / tensor_merge / tensor_transpose yield the documented factor order or the documented exception, and that equivalent/remap Pauli index maps are the row-major index maps they should be; the model interprets the subscripts exactly as util.py builds them and is compared with the real functions (product of the predicted factor order vs actual result, exception classes) over an exhaustive enumeration of small chains with heterogeneous dimensions, plus an independent numpy.insert oracle.',
@@ -74,7 +74,7 @@ CLAIMS = {
             'DESIGN.md §3 C15'),
     'C19': ('Lean 4 theorems: the shipped closed forms FID, SE, PDD (both parities), CPMG (both parities), UDD and CDD (induction on the level) equal |y|^2/2 of the sign-flip sequence for every order and every z away from removable singularities; model executed for correspondence with analytic.py',
             'Machine-checked proof over the reals that each function of analytic.py (modelled operation by operation and run against the Python on the same inputs) equals the dephasing filter function times omega^2 of the ideal sign-flip sequence with the family\'s flip times, for all n (g); the search compares the numerical engine on exact sign-flip pulses and on finite-width pi pulses with the shipped expressions.',
-            'The identification of the package filter function for B=sigma_z/2, H_c=0 with |y|^2/(2 omega^2) is validated numerically; Float sin/cos/tan vs real functions is not proved.',
+            'The identification of the package filter function for B=sigma_z/2, H_c=0 with |y|^2/(2 omega^2) is now a theorem about the control-matrix model of C01 (module C19Engine: engine_eq_ddF and engine_fid/se/pdd/cpmg/udd/cdd, with the guard read from the source); finite-width pulses and Float sin/cos/tan vs real functions are validated, not proved.',
             'DESIGN.md §3 C19'),
     'C20': ('Lean 4 theorems over executable validators that mirror the order of the checks in the source (valid => accepted; rejected <=> not valid; every rejection explained by a catalogued corruption of the reported class) + options table regenerated from the decorators + model-vs-implementation correspondence on abstract inputs + corruption search on real inputs',
             'Machine-checked proof, for all abstract inputs (operator kinds and shapes, coefficient lengths, identifiers, durations, bases, cache / frequency states, qubit assignments), that the modelled validators of the constructors, parse_spectrum, identifier and option look-up, Basis, slicing, concatenate, extend / remap, the pulse-correlation getters and the small argument checks accept exactly the documented domain and raise the documented class otherwise (under explicit regularity hypotheses that exclude the recorded disagreements between code and documentation); the model is run against the real functions on thousands of structured requests per run (exception class and parsed output), the option table is regenerated from the decorators, and a catalogue of single corruptions / untouched valid inputs is applied to real random inputs.',
